@@ -21,6 +21,8 @@ through the whole skip-list lattice on the real `save(skip=...)` / `load(skip=..
           introspection, snapshotted before anything is saved, restored in place before every work item and compared after
           every history ("a save must not depend on earlier saves"; a changed mutable is a failure class of its own).
 
+  reload    : graphs mixing objects created before and after importlib.reload of the serialize module (child old / parent
+          new, child new / parent old, both old), each pairing in a subprocess: 5 name sets x when x store + 3 type sets.
   root kinds: besides the plain root, an attrs-style root and a hybrid root (AutoSerialize AND torch.nn.Module, with an
           nn.Parameter, a persistent and a non-persistent buffer, a sub-module, a nested plain child, a nested hybrid child):
           every member kind skipped by name at save / load / both, and by type at save; oracle = the unskipped load with
@@ -371,6 +373,173 @@ def eval_hybrid(item, seed=0, scratch="/tmp"):
     t.extra["hybrid_points_showing_the_known_defect"] += int(any(c.get("relation") == "skip_reaches_nested_object" for c, _ in f))
     for cls, msg in f:
         t.fail(cls, case, msg)
+    return t
+
+
+# ----------------------------------------------------------------------------- objects from before / after a module reload
+# `_is_autoserialize_instance` is documented to work "even across autoreloads": an object created before
+# importlib.reload(quantem.core.io.serialize) nested in a parent built from the reloaded class (and the reverse pairing, and
+# both old) must be treated as a nested subtree, so that skip lists reach inside it. Reloading cannot be undone inside a
+# process, so every pairing runs in a subprocess of its own (same interpreter, same environment, hence the same source
+# tree), which prints one JSON record; comparisons there are by class NAME, attribute names at every level and value digests.
+RELOAD_SCENARIOS = ["child_old_parent_new", "child_new_parent_old", "both_old"]
+RELOAD_NAME_SETS = [["a"], ["arr"], ["a", "t"], ["inner"], ["zzz"]]
+RELOAD_TYPE_SETS = [["ndarray"], ["Tensor"], ["str"]]
+_RELOAD_CLASSES_SRC = """
+import quantem.core.io.serialize as ser
+class RTop(ser.AutoSerialize):
+    pass
+class RMid(ser.AutoSerialize):
+    pass
+class RInner(ser.AutoSerialize):
+    pass
+"""
+
+
+def _reload_child_main():
+    """Runs in the subprocess: argv[1] = JSON {scenario, seed, scratch, cases or null}."""
+    import importlib
+    import json
+    import os
+    import sys
+    import warnings
+
+    warnings.simplefilter("ignore")
+    arg = json.loads(sys.argv[1])
+    scenario, seed, scratch = arg["scenario"], arg["seed"], arg["scratch"]
+    moddir = os.path.join(scratch, f"reload-mod-{os.getpid()}")
+    os.makedirs(moddir, exist_ok=True)
+    with open(os.path.join(moddir, "_c14_reload_classes.py"), "w") as f:
+        f.write(_RELOAD_CLASSES_SRC)
+    sys.path.insert(0, moddir)
+    import numpy as np
+    import torch
+
+    import quantem.core.io.serialize as ser
+    import _c14_reload_classes as M
+
+    old = {"RTop": M.RTop, "RMid": M.RMid, "RInner": M.RInner}
+    ser = importlib.reload(ser)  # what %autoreload does after serialize.py was touched
+    M = importlib.reload(M)
+    new = {"RTop": M.RTop, "RMid": M.RMid, "RInner": M.RInner}
+    assert new["RTop"] is not old["RTop"] and not issubclass(old["RTop"], ser.AutoSerialize)
+    top_cls, kid_cls = {"child_old_parent_new": (new, old), "child_new_parent_old": (old, new), "both_old": (old, old)}[scenario]
+
+    def make():
+        inner = kid_cls["RInner"]()
+        inner.a, inner.arr, inner.t, inner.s = 1, S.make_array("f64", (3,), seed + 41), torch.from_numpy(S.make_array("f32", (3,), seed + 42).copy()), "x"
+        mid = kid_cls["RMid"]()
+        mid.a, mid.inner, mid.b, mid.t = 0.5, inner, [1, "s"], "label"
+        top = top_cls["RTop"]()
+        top.a, top.mid, top.arr, top.name, top.c = 2**40, mid, S.make_array("i16", (2, 3), seed + 43), "top", {"a": 0, "arr": S.make_array("u8", (3,), seed + 44)}
+        return top
+
+    def is_node(v):
+        return hasattr(type(v), "__autoserialize_marker__")
+
+    def snap(v):
+        if is_node(v):
+            return {"class": type(v).__name__, "attrs": {k: snap(x) for k, x in sorted(vars(v).items())}}
+        return S.summary(v)
+
+    def prune_nodes(v, names, types):
+        for k in list(vars(v)):
+            x = vars(v)[k]
+            if k in names or (types and isinstance(x, types)):
+                delattr(v, k)
+            elif is_node(x):
+                prune_nodes(x, names, types)
+
+    def first_diff(e, g, path="top"):
+        if isinstance(e, dict) and isinstance(g, dict) and "attrs" in e and "attrs" in g:
+            if e["class"] != g["class"]:
+                return f"at {path}: class {e['class']} expected, observed {g['class']}"
+            ke, kg = set(e["attrs"]), set(g["attrs"])
+            if ke != kg:
+                return f"at {path}: attribute names expected {sorted(ke)}, observed {sorted(kg)} (extra {sorted(kg - ke)}, missing {sorted(ke - kg)})"
+            for k in sorted(ke):
+                d = first_diff(e["attrs"][k], g["attrs"][k], f"{path}.{k}")
+                if d:
+                    return d
+            return None
+        return None if e == g else f"at {path}: expected {str(e)[:120]}, observed {str(g)[:120]}"
+
+    tmap = {"ndarray": np.ndarray, "Tensor": torch.Tensor, "str": str}
+    n = [0]
+
+    def roundtrip(store, save_skip, load_skip):
+        n[0] += 1
+        p = os.path.join(scratch, f"reload-{os.getpid()}-{n[0]}" + (".zip" if store == "zip" else ""))
+        try:
+            with S.quiet():
+                make().save(p, store=store, **({"skip": save_skip} if save_skip else {}))
+                y = ser.load(p, **({"skip": load_skip} if load_skip else {}))
+            return "ok", snap(y)
+        except Exception as e:
+            return "raises", f"{type(e).__name__}: {str(e)[:160]}"
+        finally:
+            import shutil
+
+            shutil.rmtree(p, ignore_errors=True) if os.path.isdir(p) else (os.path.exists(p) and os.remove(p))
+
+    out = {"scenario": scenario, "roundtrip": {}, "results": []}
+    for store in STORES:
+        st, y = roundtrip(store, None, None)
+        d = first_diff(snap(make()), y) if st == "ok" else y
+        out["roundtrip"][store] = "ok" if (st == "ok" and not d) else d
+    cases = arg.get("cases")
+    if cases is None:
+        cases = [{"names": ns, "types": [], "when": w, "store": st} for ns in RELOAD_NAME_SETS for w in ("save", "load", "both") for st in STORES]
+        cases += [{"names": [], "types": ts, "when": "save", "store": st} for ts in RELOAD_TYPE_SETS for st in STORES]
+    for c in cases:
+        if out["roundtrip"][c["store"]] != "ok":
+            continue
+        names, types = c["names"], tuple(tmap[t] for t in c["types"])
+        skip = list(names) + list(types)
+        st, y = roundtrip(c["store"], skip if c["when"] in ("save", "both") else None, skip if c["when"] in ("load", "both") else None)
+        exp = make()
+        prune_nodes(exp, set(names), types)
+        d = first_diff(snap(exp), y) if st == "ok" else y
+        out["results"].append(dict(c, status="ok" if (st == "ok" and not d) else ("raises" if st != "ok" else "differs"), detail=d))
+    import shutil
+
+    shutil.rmtree(moddir, ignore_errors=True)
+    print("RELOAD-RESULT " + json.dumps(out))
+
+
+def run_reload(item, seed, scratch):
+    """One pairing in a subprocess. Returns (record or None, stderr tail)."""
+    import json
+    import subprocess
+    import sys
+
+    arg = json.dumps({"scenario": item["scenario"], "seed": seed, "scratch": scratch, "cases": item.get("cases")})
+    r = subprocess.run([sys.executable, "-c", "from checks import C14; C14._reload_child_main()", arg], capture_output=True, text=True, timeout=600)
+    for line in r.stdout.splitlines():
+        if line.startswith("RELOAD-RESULT "):
+            return json.loads(line[len("RELOAD-RESULT "):]), ""
+    return None, (r.stderr or r.stdout)[-800:]
+
+
+def eval_reload(item, seed=0, scratch="/tmp"):
+    t = Tally()
+    rec, err = run_reload(item, seed, scratch)
+    if rec is None:
+        raise RuntimeError(f"reload subprocess produced no result: {err}")
+    sc = item["scenario"]
+    for store, st in rec["roundtrip"].items():
+        t.extra["reload_roundtrips_without_skip"] += 1
+        if st != "ok":  # pre-reload objects do not even round-trip without skipping: counted, not this property's business
+            t.extra["reload_roundtrips_without_skip_not_supported"] += 1
+    for r in rec["results"]:
+        t.case(key=["reload", sc, r["names"], r["types"], r["when"], r["store"]], nontrivial=bool(r["names"] != ["zzz"]), outcome=[r["status"], r["detail"] if r["status"] != "ok" else None][0])
+        t.extra["reload_points"] += 1
+        if r["status"] != "ok":
+            cls = {"relation": "skip_across_module_reload", "scenario": sc, "when": r["when"], "by": "type" if r["types"] else "name", "symptom": r["status"]}
+            case = {"family": "reload", "scenario": sc, "cases": [{k: r[k] for k in ("names", "types", "when", "store")}], "seed": seed}
+            t.fail(cls, case, f"module reload, {sc}: store={r['store']} when={r['when']} skip names={r['names']} types={r['types']}: {r['detail']} (expected: as without a reload: the names absent at every level, survivors equal)")
+    if not rec["results"]:
+        t.case(key=["reload", sc, "no_roundtrip"], nontrivial=False, outcome=str(rec["roundtrip"]))
     return t
 
 
@@ -1068,6 +1237,8 @@ def run(ctx):
     m6 = ctx.pmap(eval_root_kind, ritems, chunk=1, label="root kinds", seed=ctx.seed, scratch=ctx.scratch)
     if S.AttrsRoot is None:
         ctx.seam_missing.append("the attrs package is not importable: the attrs-style root is not exercised")
+    litems = [{"scenario": sc} for sc in RELOAD_SCENARIOS]
+    m7 = ctx.pmap(eval_reload, litems, chunk=1, label="module reload", seed=ctx.seed, scratch=ctx.scratch)
     pitems = enumerate_spellings(ctx.quick)
     m5 = ctx.pmap(eval_spelling, pitems, chunk=1, label="skip spellings", seed=ctx.seed, scratch=ctx.scratch)
     overrides = find_save_load_overrides(ctx.repo)
@@ -1088,6 +1259,8 @@ def run(ctx):
             "name_sets": ROOT_NAME_SETS, "type_sets_at_save": ROOT_TYPE_SETS, "when": ["save", "load", "both"], "items": len(ritems), "points": int(m6.extra["root_kind_points"]),
             "hybrid_root_members": {k: v for k, v in sorted(root_members(build_root("hybrid", ctx.seed)).items())},
         },
+        module_reload={"scenarios": RELOAD_SCENARIOS, "name_sets": RELOAD_NAME_SETS, "type_sets_at_save": RELOAD_TYPE_SETS, "points": int(m7.extra["reload_points"]),
+                       "unskipped_roundtrips": int(m7.extra["reload_roundtrips_without_skip"]), "unskipped_roundtrips_not_supported": int(m7.extra["reload_roundtrips_without_skip_not_supported"])},
         skip_spellings={
             "entry_points_driven": ["AutoSerialize.save / load()", "Ptychography.save / load()"], "save_load_overrides_found_in_source": overrides,
             "overrides_with_a_skip_parameter_not_driven": undriven,
@@ -1130,6 +1303,16 @@ def run(ctx):
 def replay(ctx, case):
     seed = case.get("seed", ctx.seed)
     print(f"  graph: {S.show(GRAPH)}")
+    if case["family"] == "reload":
+        rec, err = run_reload(case, seed, ctx.scratch)
+        if rec is None:
+            raise Broken(f"reload subprocess produced no result: {err}")
+        print(f"  scenario {case['scenario']}: unskipped round trip {rec['roundtrip']}")
+        for r in rec["results"]:
+            print(f"  store={r['store']} when={r['when']} names={r['names']} types={r['types']}: {r['status']} {r['detail'] or ''}")
+            if r["status"] != "ok":
+                ctx.fail({"relation": "skip_across_module_reload", "scenario": case["scenario"], "when": r["when"], "by": "type" if r["types"] else "name", "symptom": r["status"]}, case, str(r["detail"]))
+        return
     if case["family"] == "root_kind":
         import importlib
 
